@@ -1,6 +1,7 @@
 import ThruVerif.Model.Sidecar
 import ThruVerif.Gen.Consts
 import ThruVerif.Proofs.Resume
+import ThruVerif.Model.Entry
 import ThruVerif.Gen.Shapes
 /-!
 # C06 — Stale, foreign or damaged resume state is never trusted  (metadata part)
@@ -135,6 +136,54 @@ example : Wf { fileID := [97], fileSize := 74, chunkSize := 32, total := 3, bitm
   ⟨by decide, by decide, by decide, by decide, by decide, by decide⟩
 example : bitmapOk [0xF8] 3 = false := by decide      -- stray bits 3..7 with total 3
 example : bitmapOk [0x07] 3 = true := by decide
+
+/-! ### which stored state a beginning file resumes from (`Model/Entry`) -/
+
+open TV.Entry in
+/-- **C06_entry_trusts_only_matching_state.** Whatever bytes lie at the primary and the fallback metadata location and whatever
+became of the data file: the receiver resumes from a stored record only if the data file is there with exactly the announced
+length and the record - a well-formed one, from one of the two locations - was written for this id, this size and this chunk size.
+Metadata left over from a deleted or shortened data file, or from another file, is never used. -/
+theorem C06_entry_trusts_only_matching_state (magic : Bytes) (version : Nat) (df : DataFile) (primary fallback : Option Bytes)
+    (fid : Bytes) (fs cs : Nat) (s : Sc) (h : entry magic version df primary fallback fid fs cs = some s) :
+    df = .present fs ∧ s.fileID = fid ∧ s.fileSize = fs ∧ s.chunkSize = cs ∧
+    ∃ d, (primary = some d ∨ fallback = some d) ∧ parse magic version d = .ok s := by
+  unfold entry at h
+  simp only at h
+  have hk : kept df fs = true := by
+    cases hkk : kept df fs with
+    | true => rfl
+    | false =>
+      simp only [hkk, Bool.false_eq_true, ↓reduceIte] at h
+      simp [loadValid] at h
+  have hdf : df = .present fs := by
+    cases df with
+    | absent => simp [kept] at hk
+    | present sz => simp only [kept, beq_iff_eq] at hk; rw [hk]
+  simp only [hk, ↓reduceIte] at h
+  split at h
+  · rename_i s' hs
+    cases h
+    obtain ⟨h1, h2, h3, d, hd, hp⟩ := C06_identity magic version primary fid fs cs s hs
+    exact ⟨hdf, h1, h2, h3, d, Or.inl hd, hp⟩
+  · obtain ⟨h1, h2, h3, d, hd, hp⟩ := C06_identity magic version fallback fid fs cs s h
+    exact ⟨hdf, h1, h2, h3, d, Or.inr hd, hp⟩
+
+open TV.Entry in
+/-- premises satisfiable / the two clauses apart: with the data file gone nothing is resumed, whatever the metadata says -/
+example (magic : Bytes) (version : Nat) (p f : Option Bytes) (fid : Bytes) (fs cs : Nat) :
+    entry magic version .absent p f fid fs cs = none ∧ entry magic version (.present (fs + 1)) p f fid fs cs = none := by
+  constructor <;> simp [entry, kept, loadValid]
+
+open TV.Gen.Shapes in
+set_option maxRecDepth 16384 in
+/-- the source `Model/Entry` was transcribed from: the stat test and what is removed when it fails, the arguments of
+`LoadOrCreateSidecarWithFallback`, and its decisions (primary first, identity triple compared, mismatching file removed) -/
+theorem C06_source_entry :
+    entry_stat_test = ["opts.Resume ; statErr != nil || info.Size() != int64(begin.FileSize)"] ∧
+    entry_removes = ["SidecarPath(baseDir, \"\", sidecarIdentifier(item))", "SidecarPath(rootedDir, \"\", sidecarIdentifier(item))"] ∧
+    entry_load_ifs = ["chunkSize == 0", "path == \"\"", "err != nil", "sc.ChunkSize != chunkSize || sc.FileSize != fileSize || sc.FileID != fileID",
+      "err != nil", "err != nil ; ok", "err != nil", "err != nil ; ok"] := by decide
 
 end TV.C06
 
